@@ -157,6 +157,13 @@ static std::vector<Scn> scenarios(bool th, bool small_only)
                             if (small_only && (e == 4 || d == 1)) continue;
                             v.push_back({K_EXT, N, N * e, nc, ph, bl, d, 0, 0, 0, 0, 0, 0});
                         }
+    // large blow-up factors on tiny domains (N_ext >= 4 N^2: the rows just above N and the rows of the extension pattern meet)
+    if (!small_only)
+        for (u64 N : {1ULL, 2ULL})
+            for (u64 e : {4ULL, 8ULL, 16ULL, 32ULL})
+                for (u64 ph : {1ULL, 2ULL})
+                    for (int d = 0; d < 2; d++)
+                        v.push_back({K_EXT, N, N * e, 1, ph, 1, d, 0, 0, 0, 0, 0, 0});
     int nback = 2;
 #ifdef __AVX512__
     nback = 3;
